@@ -247,6 +247,51 @@ func twinCorpus() []CorpusReq {
 		}
 		out = append(out, CorpusReq{Name: "random-order/" + m, Req: r, Valid: true, Always: true})
 	}
+	// degenerate but valid data: a criterion with one value for every known alternative, a criterion that is 0 everywhere,
+	// all weights 0 — with every bias that rescales or averages
+	for _, m := range []string{"weightedSum", "majorityHeuristic", "electreIII", "satisfactionHeuristic"} {
+		for zi, zero := range []bool{false, true} {
+			root := degenerateVariant(rootRequest(m, true, false), zero)
+			for _, bi := range []int{4, 5, 6, 7, 8, 1, 2} {
+				b := biasAlphabet(0)[bi]
+				out = append(out, CorpusReq{Name: fmt.Sprintf("degenerate/%s/zero=%v/%s#%d", m, zero, biasLabel(b), bi), Req: withBiases(root, []M{b}), Valid: true, Always: zi == 0 && (bi == 6 || bi == 8)})
+			}
+		}
+	}
+	for _, m := range []string{"weightedSum", "majorityHeuristic", "aspectEliminationHeuristic"} {
+		root := rootRequest(m, true, false)
+		for k := range asM(asM(root["methodParameters"])["weights"]) {
+			asM(asM(root["methodParameters"])["weights"])[k] = 0.0
+		}
+		for _, bi := range []int{8, 11, 4, 6, 0} {
+			b := biasAlphabet(0)[bi]
+			out = append(out, CorpusReq{Name: fmt.Sprintf("zero-weights/%s/%s#%d", m, biasLabel(b), bi), Req: withBiases(root, []M{b}), Valid: true})
+		}
+	}
+	// ELECTRE III with decimal weights whose float sum depends on the order of addition (0.3+0.2+0.35+0.15), and pairs
+	// whose credibilities sit exactly on the outranking line of the default distillation function (1 against 0.85:
+	// 1 > 0.85 + 0.3 - 0.15*1 is decided in the last bit) — any order-of-iteration dependence in the arithmetic shows
+	for vi, wts := range [][]float64{{0.3, 0.2, 0.35, 0.15}, {0.15, 0.35, 0.2, 0.3}, {0.1, 0.2, 0.3, 0.25}} {
+		cids := critIDs(4)
+		last := cids[3]
+		if vi == 1 {
+			last = cids[0]
+		}
+		mkv := func(base float64, drop bool) []float64 {
+			v := []float64{base, base, base, base}
+			if drop {
+				for j, c := range cids {
+					if c == last {
+						v[j] = base - 5
+					}
+				}
+			}
+			return v
+		}
+		r := genericRequest("electreIII", cids, -1, []string{"a", "b", "c", "d"}, [][]float64{mkv(10, false), mkv(10, true), mkv(10, false), mkv(4, true)}, []string{"d", "b", "a", "c"}, wts)
+		out = append(out, CorpusReq{Name: fmt.Sprintf("electre/on-the-cut-%d", vi), Req: r, Valid: true, Always: true})
+		out = append(out, CorpusReq{Name: fmt.Sprintf("electre/on-the-cut-%d/omission", vi), Req: withBiases(r, []M{biasAlphabet(0)[0]}), Valid: true, Always: vi == 0})
+	}
 	// one bias kind applied twice in one request with the same seed (second generated id, second stream)
 	core0 := biasAlphabet(0)
 	for _, m := range []string{"weightedSum", "satisfactionHeuristic"} {
